@@ -98,6 +98,31 @@ int main(int argc, char** argv)
                 one(D, c.argv, env);
                 singles++;
             }
+        // every single configuration again as the SECOND parse on one parser object, after each other configuration
+        // of the same item (the ranking must not depend on what an earlier parse took from which source)
+        for (char k : { 'o', 'm', 't' })
+        {
+            auto cs = configs(k, "", true);
+            for (auto& first : cs)
+                for (auto& c : cs)
+                {
+                    if (ctx.stop())
+                        return;
+                    // same declaration needed for both: compare the item declaration
+                    if (item_json(first.item) != item_json(c.item))
+                        continue;
+                    Decl D;
+                    D.items = { c.item };
+                    Env e1, e2;
+                    if (first.env_set)
+                        e1[first.item.env] = first.env_value;
+                    if (c.env_set)
+                        e2[c.item.env] = c.env_value;
+                    long idx = ctx.next;
+                    ctx.each([&] { return chk.describe(D, c.argv, e2); },
+                             [&](mc::Report& rep) { chk.run_second(D, first.argv, e1, c.argv, e2, rep, idx); });
+                }
+        }
         // ordered pairs (A first on the command line, then B), cross-talk between two items of any kinds
         for (char ka : { 'o', 'm', 't' })
             for (char kb : { 'o', 'm', 't' })
